@@ -220,9 +220,9 @@ PROPS = {
     "C09": dict(
         harness="h_life", sources=LIFE, level="exploration", exhaustive=True,
         variants=dict(quick=[V("asan", 8, 0.5), V("opt", 8), V("optavx", 4)], thorough=[V("asan", 12, 0.25), V("opt", 8), V("optavx", 8), V("align", 8, 0.5)]),
-        rule="the full cross product of the discrete axes is enumerated: 20 expression shapes (4 sum, 2 difference, 2 negation, 4 scalar-product, commutator, anticommutator, Evolve(op,t), "
-             "Evolve(table), 4 user element-wise overloads, i.e. every value-category overload) x {=,+=,-=,construct} x target {empty, owned same d, owned other d, external same d, external other d} "
-             "x alias {none, v is a, v is b, v is both, v and a different objects on one user buffer} x guarantee set {none, NoAlias, EqualSizes, both, +AlignedStorage} x d=2..6 = 50000 cells; "
+        rule="the full cross product of the discrete axes is enumerated: 28 expression shapes (4 sum, 4 difference, 2 negation, 4 scalar-product, 3 commutator, 3 anticommutator, 2 Evolve(op,t), "
+             "2 Evolve(table), 4 user element-wise: every combination of operand value categories, also those for which the library has no dedicated overload) x {=,+=,-=,construct} x target {empty, owned same d, owned other d, external same d, external other d} "
+             "x alias {none, v is a, v is b, v is both, v and a different objects on one user buffer} x guarantee set {none, NoAlias, EqualSizes, both, +AlignedStorage} x d=2..6 = 70000 cells; "
              "inadmissible cells and cells whose guarantee would be false (alignment measured on the actual addresses) are skipped and counted; values random per cell (quick 2 draws; asan 1). "
              "Oracle: the property's own definition - op evaluated into a fresh temporary from fresh copies, then =,+=,-= applied component-wise; NaN pre-fill for plain assignment; documented "
              "exceptions exactly and with the target untouched; operands unchanged unless consumed; external targets still bound; zero allocations in the documented no-allocation cases.",
